@@ -402,7 +402,7 @@ func (ex *Exec) sliceSegs(st *State, s *SliceV) ([]Seg, bool) {
 	if s.Nil || s.Obj < 0 {
 		return nil, true
 	}
-	arr, ok := st.heap[s.Obj].(*ArrayV)
+	arr, ok := ex.arrOf(st, s)
 	if !ok {
 		return nil, false
 	}
@@ -607,4 +607,27 @@ func (ex *Exec) havocReachable(st *State, why string, roots []Val) {
 			}
 		}
 	}
+}
+
+// arrOf: the array a slice views (the heap object itself, or an array nested in a struct through s.Path).
+func (ex *Exec) arrOf(st *State, s *SliceV) (*ArrayV, bool) {
+	cur := st.heap[s.Obj]
+	for _, pe := range s.Path {
+		sv, ok := cur.(*StructV)
+		if !ok || pe.Index != nil || pe.Field < 0 || pe.Field >= len(sv.Fields) {
+			return nil, false
+		}
+		cur = sv.Fields[pe.Field]
+	}
+	a, ok := cur.(*ArrayV)
+	return a, ok
+}
+
+// setArrOf replaces the array a slice views.
+func (ex *Exec) setArrOf(st *State, s *SliceV, a *ArrayV) {
+	if len(s.Path) == 0 {
+		st.heap[s.Obj] = a
+		return
+	}
+	ex.storePath(st, s.Obj, s.Path, a)
 }
